@@ -3,6 +3,7 @@
 package props
 
 import (
+	"fmt"
 	"sort"
 
 	"verif/internal/driver"
@@ -95,7 +96,18 @@ func violOf(e *driver.Env) *Viol {
 	if e == nil || e.Viol == nil {
 		return nil
 	}
-	return &Viol{Sig: e.Viol.Sig, Detail: e.Viol.Detail, Step: e.Viol.Step, Op: e.Viol.Op, Trace: tail(e.Trace, 60)}
+	v := &Viol{Sig: e.Viol.Sig, Detail: e.Viol.Detail, Step: e.Viol.Step, Op: e.Viol.Op, Trace: tail(e.Trace, 60)}
+	if e.F != nil && e.F.KeepLog {
+		wl := e.F.WriteLog()
+		if len(wl) > 16 {
+			wl = wl[len(wl)-16:]
+		}
+		for _, c := range wl {
+			v.Trace = append(v.Trace, fmt.Sprintf("  [file] #%d %s off=%d len=%d n=%d err=%v tag=%s", c.Seq, c.Kind, c.Off, c.Len, c.N, c.Err, c.Tag))
+		}
+		v.Trace = append(v.Trace, fmt.Sprintf("  [file] size=%d durableEnd=%d", e.F.Size(), e.F.DurableEnd()))
+	}
+	return v
 }
 
 func tail(s []string, n int) []string {
